@@ -32,6 +32,11 @@ def goenv(extra=None):
     e.update(GOFLAGS='-mod=mod', GOPROXY='off', GOSUMDB='off', GOTOOLCHAIN='local', GONOSUMDB='*', GONOSUMCHECK='1')
     e.pop('GOWORK', None)
     e['GOWORK'] = 'off'
+    if KEY != 'default' and not os.environ.get('VERIF_KEEP_GOCACHE'):
+        # runs against scratch copies of the repository (seeded changes, mutants) get a build cache of their own,
+        # which tools/seed_matrix.sh and tools/mutants.py delete afterwards: every scratch path would otherwise leave
+        # its own copy of every compiled package in the main cache
+        e['GOCACHE'] = '/root/.cache/go-build-verif-scratch'
     if extra:
         e.update({k: str(v) for k, v in extra.items()})
     return e
